@@ -755,6 +755,7 @@ func runRealFiles() *fail {
 func init() {
 	replayRegistrars = append(replayRegistrars, func() {
 		registerReplay("C20/modes", runModeCase)
+		registerReplay("C20/nested", func(c nestCase) *fail { return runNestCase(c, nil) })
 		registerReplay("C20/devino", runDevinoCase)
 		registerReplay("C20/mapper-seq", runMapperCase)
 		registerReplay("C20/mapper-conc", runMapperConcCase)
@@ -765,6 +766,19 @@ func TestC20(t *testing.T) {
 	h := begin(t, "C20")
 	defer h.Finish()
 	env := h.Env
+	// generated compositions, nested up to three deep
+	rapidCases(h, "nested", env.PerShard(env.Pick(1600, 60000)), func(rt *rapid.T) nestCase {
+		return nestCase{Root: genNestNodes(rt, 1, "e"), Server: rapid.Bool().Draw(rt, "server")}
+	}, func(c nestCase) *fail {
+		st := &nestStats{}
+		f := runNestCase(c, st)
+		h.Case(evid.HashJSON(c), st.depth >= 2, "nested")
+		h.Count("nested:files-identified", int64(st.files))
+		if st.depth >= 2 && h.WantSample("nested") {
+			h.Sample("nested", c)
+		}
+		return f
+	})
 
 	// (1) exhaustive mode round trips: only shard 0 enumerates (seed independent).
 	if env.Shard == 0 {
